@@ -390,10 +390,18 @@ class Parser:
             for field, value in node.__dict__.items():
                 if type(value) is str:
                     if not value.isascii() and field != "type_comment":
-                        setattr(node, field, unicodedata.normalize("NFKC", value))
+                        setattr(node, field, self._identifier(value, node))
                 elif field in ("names", "kwd_attrs") and type(value) is list:  # global / nonlocal names, class-pattern keywords
-                    value[:] = [v if type(v) is not str or v.isascii() else unicodedata.normalize("NFKC", v) for v in value]
+                    value[:] = [v if type(v) is not str or v.isascii() else self._identifier(v, node) for v in value]
         return tree
+
+    def _identifier(self, name: str, node: ast.AST) -> str:
+        # the tokenizer's NAME is a run of word characters, which is more than Python allows in a name ('a²', '٠')
+        for part in name.split("."):  # dotted module names
+            if not part.isidentifier() and part != "*":
+                bad = next(c for i, c in enumerate(part) if not (c if i == 0 else "a" + c).isidentifier())
+                self.raise_syntax_error_known_location(f"invalid character '{bad}' (U+{ord(bad):04X})", node)
+        return unicodedata.normalize("NFKC", name)
 
     def _utf8_columns(self, tree: Any) -> Any:
         """Token columns count characters; like CPython, AST columns count UTF-8 bytes."""
